@@ -119,6 +119,66 @@ class ClassInfo:
         return f"<class {self.fq}>"
 
 
+_MIRROR_OPS = {ast.Lt: ast.Gt, ast.Gt: ast.Lt, ast.LtE: ast.GtE,
+               ast.GtE: ast.LtE, ast.Eq: ast.Eq, ast.NotEq: ast.NotEq}
+
+
+class _Canon(ast.NodeTransformer):
+    """Source-level normal form applied to every module before any rule sees
+    it, so that two spellings of the same program are one program to the
+    rules:
+      * `t = E` immediately followed by `return t`  ->  `return E`
+      * `K <op> x` with a literal K on the left      ->  `x <mirrored op> K`
+      * `if not c: A else: B` (no elif chain)        ->  `if c: B else: A`
+    Positions of the surviving nodes are kept."""
+
+    def _stmts(self, body):
+        out = []
+        i = 0
+        while i < len(body):
+            st = body[i]
+            nxt = body[i + 1] if i + 1 < len(body) else None
+            if isinstance(st, ast.Assign) and len(st.targets) == 1 \
+                    and isinstance(st.targets[0], ast.Name) \
+                    and isinstance(nxt, ast.Return) \
+                    and isinstance(nxt.value, ast.Name) \
+                    and nxt.value.id == st.targets[0].id:
+                out.append(ast.copy_location(ast.Return(value=st.value), st))
+                i += 2
+                continue
+            out.append(st)
+            i += 1
+        return out
+
+    def generic_visit(self, node):
+        super().generic_visit(node)
+        for fld in ("body", "orelse", "finalbody"):
+            b = getattr(node, fld, None)
+            if isinstance(b, list) and b and isinstance(b[0], ast.stmt):
+                setattr(node, fld, self._stmts(b))
+        return node
+
+    def visit_If(self, st):
+        self.generic_visit(st)
+        if isinstance(st.test, ast.UnaryOp) and isinstance(st.test.op,
+                                                           ast.Not) \
+                and st.orelse and not (len(st.orelse) == 1 and isinstance(
+                    st.orelse[0], ast.If)):
+            st.test, st.body, st.orelse = st.test.operand, st.orelse, st.body
+        return st
+
+    def visit_Compare(self, c):
+        self.generic_visit(c)
+        if len(c.ops) == 1 and type(c.ops[0]) in _MIRROR_OPS \
+                and isinstance(c.left, ast.Constant) \
+                and not isinstance(c.comparators[0], ast.Constant):
+            return ast.copy_location(ast.Compare(
+                left=c.comparators[0],
+                ops=[_MIRROR_OPS[type(c.ops[0])]()],
+                comparators=[c.left]), c)
+        return c
+
+
 class Module:
     def __init__(self, project, name, path, rel, is_pkg):
         self.project = project
@@ -132,6 +192,7 @@ class Module:
             self.tree = ast.parse(self.source, filename=path)
         except SyntaxError as e:
             raise AnalysisError(f"syntax error in {rel}: {e}")
+        self.tree = ast.fix_missing_locations(_Canon().visit(self.tree))
         self.bindings = {}       # name -> list of raw binding records
         self.stars = []          # module names star-imported
         self.functions = {}
